@@ -3,7 +3,7 @@
    Props/C08.v for its equivalence with "end = transaction id of the next version / NULL for the
    newest": C08_validity_strategy is proved from exactly this definition). *)
 From Continuum Require Import Model.Base Model.VTable Model.Backfill Model.Core
-     Proofs.BaseP Proofs.VTableP Proofs.CoreP Proofs.ChainP Proofs.CoreChainP Proofs.HierP.
+     Proofs.BaseP Proofs.VTableP Proofs.CoreP Proofs.ChainP Proofs.CoreChainP Proofs.HierP Proofs.HierChainP.
 
 (* table level: writing (inserting or re-writing) the row of entity k at a transaction id T that is
    at least every id in the table, then closing its predecessor, yields the chain for entity k ... *)
@@ -36,15 +36,32 @@ Proof. exact reachable_tables_ok. Qed.
 
 (* joined-table hierarchies.  The base table of a hierarchy is a validity table like any other and is covered by
    C03_reachable_chain (hier_consistent: the child tables are not validity tables of their own).  A row of a CHILD
-   table has to be closed by the next version of its key in the base table, whatever class that version has
-   (want), and be open while there is none.  The hierarchy pass - the model of the repaired
-   update_version_validity, applied after every flush (C03_machine_applies_the_pass) - establishes exactly that,
-   for any table in which every version of a subclass entity has its base-table row (paired) and every child row
-   is right already or stale in the one way a flush of transaction T can make it stale; it changes nothing else
-   (C03_hierarchy_pass_frame).  The hypotheses are evaluated on the model state at every recorded flush of a
-   hierarchy (Checks/Corechk.v hier_hyps); that they hold in every reachable state is NOT proved (it would need
-   the lock-step of the per-table parts of one object through track / process_op): for joined hierarchies the
-   machine-level chain is decided by this theorem + the monitored hypotheses + the correspondence. *)
+   table has to be closed by the next version of its key in the base table, whatever class that version has, and be
+   open while there is none.  C03_reachable_hierarchy_chain: that holds in every reachable state (working and
+   committed database) of every trace - by induction over the events; a flush leaves every child row right or stale
+   in the one way the hierarchy pass repairs (Proofs/HierChainP.v stale_after_flush), the pass - the model of the
+   repaired update_version_validity, applied after every flush (C03_machine_applies_the_pass) - repairs exactly
+   those (C03_hierarchy_pass_closes_superseded) and changes nothing else (C03_hierarchy_pass_frame).
+   One hypothesis about the environment remains, trace_paired: after every flush every version of a subclass entity
+   has its row in the base table too and keys are not empty.  It is decidable (trace_pairedb) and evaluated on every
+   recorded trace of a hierarchy (Checks/Corechk.v); it holds because the Recorder hands every mapper event of a
+   subclass object to the model once per table - that it follows from a well-formedness condition on the events
+   alone is NOT proved (it would need the lock-step of the per-table parts through track / process_op). *)
+Theorem C03_reachable_hierarchy_chain : forall g evs,
+  cfg_consistent g -> hier_consistent g -> one_base g -> trace_paired g state0 evs ->
+  forall cc x, In cc (g_classes g) -> In (hd 0 (vkey x)) (k_also cc) ->
+    (In x (d_vt (s_db (run g evs))) ->
+       vend x = min_above (d_vt (s_db (run g evs))) (k_tab cc :: tl (vkey x)) (vtx x)) /\
+    (In x (d_vt (s_committed (run g evs))) ->
+       vend x = min_above (d_vt (s_committed (run g evs))) (k_tab cc :: tl (vkey x)) (vtx x)).
+Proof.
+  intros g evs CC HC OB TP cc x Hcc Hch. destruct (reachable_hier_chain g evs CC HC OB TP) as [H1 H2].
+  split; intro Hx; [apply (H1 cc x Hcc Hx Hch) | apply (H2 cc x Hcc Hx Hch)].
+Qed.
+
+Theorem C03_trace_hypothesis_decidable : forall g evs s, trace_pairedb g s evs = true -> trace_paired g s evs.
+Proof. exact trace_pairedb_spec. Qed.
+
 Theorem C03_hierarchy_pass_closes_superseded : forall g T vt,
   one_base g -> paired g vt -> (forall r, In r vt -> vkey r <> []) ->
   (forall cc x, In cc (g_classes g) -> In x vt -> child_of cc x ->
@@ -89,7 +106,7 @@ Definition C03_htrace : list ev :=
   [ bk 0 true false 1 1; Commit; bk 2 false true 1 1; Commit; it 0 true false 2; Commit; it 2 false true 2; Commit;
     bk 0 true false 3 3; Commit ].
 Example C03_hierarchy_example :
-  cfg_consistent C03_hcfg /\ hier_consistent C03_hcfg /\ one_base C03_hcfg /\
+  cfg_consistent C03_hcfg /\ hier_consistent C03_hcfg /\ one_base C03_hcfg /\ trace_paired C03_hcfg state0 C03_htrace /\
   map (fun r => (vkey r, vtx r, vend r, vop r)) (d_vt (s_db (run C03_hcfg C03_htrace))) =
   [ ([1;1], 1, Some 2, 0); ([0;1], 1, Some 2, 0); ([1;1], 2, Some 3, 2); ([0;1], 2, Some 3, 2);
     ([0;1], 3, Some 4, 0); ([0;1], 4, Some 5, 2); ([1;1], 5, None, 0); ([0;1], 5, None, 0) ] /\
@@ -103,6 +120,7 @@ Proof.
   split; [apply cfg_consistentb_spec; vm_compute; reflexivity|].
   split; [apply hier_consistentb_spec; vm_compute; reflexivity|].
   split; [apply one_baseb_spec; vm_compute; reflexivity|].
+  split; [apply trace_pairedb_spec; vm_compute; reflexivity|].
   split; [vm_compute; reflexivity|]. repeat split; vm_compute; reflexivity.
 Qed.
 
@@ -129,6 +147,8 @@ Proof. split; [apply cfg_consistentb_spec; vm_compute; reflexivity | vm_compute;
 Print Assumptions C03_write_preserves_chain.
 Print Assumptions C03_write_frames_others.
 Print Assumptions C03_reachable_chain.
+Print Assumptions C03_reachable_hierarchy_chain.
+Print Assumptions C03_trace_hypothesis_decidable.
 Print Assumptions C03_hierarchy_pass_closes_superseded.
 Print Assumptions C03_hierarchy_pass_frame.
 Print Assumptions C03_machine_applies_the_pass.
